@@ -126,7 +126,7 @@ def main(argv=None):
     known_pre, _ = load_known(a.prop)
     with ctx.Pool(processes=min(a.jobs, len(names)), maxtasksperchild=1) as pool:
         asyncs = [(n, pool.apply_async(_job, ((n, tier, seed, a.repo, tuple(f['obligation'] for f in known_pre if f.get('contract') in (None, n))),))) for n in names]
-        job_timeout = 3000 if tier == 'quick' else 14000
+        job_timeout = 840 if tier == 'quick' else 14000
         for n, r in asyncs:
             try:
                 results.append(r.get(timeout=job_timeout))
